@@ -4,7 +4,7 @@ use std::io::Write;
 
 use crate::DicomJson;
 use dicom_core::{
-    DicomValue, PrimitiveValue, Tag, VR, header::Header, value::PixelFragmentSequence,
+    DicomValue, Tag, VR, header::Header, value::PixelFragmentSequence,
 };
 use dicom_dictionary_std::StandardDataDictionary;
 use dicom_object::{DefaultDicomObject, InMemDicomObject, mem::InMemElement};
@@ -221,8 +221,8 @@ impl<D> Serialize for DicomJson<&'_ InMemElement<D>> {
             DicomValue::PixelSequence(_seq) => {
                 //serializer.serialize_entry("Value", &DicomJson(seq))?;
             }
-            DicomValue::Primitive(PrimitiveValue::Empty) => {
-                // no-op
+            DicomValue::Primitive(v) if v.calculate_byte_len() == 0 => {
+                // no-op: an empty value (zero length) has no "Value"
             }
             DicomValue::Primitive(v) => match vr {
                 VR::AT => {
@@ -322,6 +322,7 @@ mod tests {
     use pretty_assertions::assert_eq;
 
     use dicom_core::Length;
+    use dicom_core::PrimitiveValue;
     use dicom_core::value::DataSetSequence;
     use dicom_core::{dicom_value, value::DicomDate};
     use dicom_dictionary_std::tags;
